@@ -38,7 +38,7 @@ IU = 'utils.iter_utils'
 
 
 def run(ctx: Ctx):
-  for r in (r1, r2, r3, r4, r6, r8):
+  for r in (r1, r2, r3, r4, r6, r8, r9):
     ctx.guard(r)
   from mlmverif.props import c02
   ctx.include('R-C10-7', 'a restored pipeline continues with the WHOLE checkpointed'
@@ -218,8 +218,8 @@ def r2(ctx: Ctx):
   ok2 = False
   if len(calls) == 1:
     c = calls[0]
-    kw = {k.arg: unparse(k.value) for k in c.keywords}
-    ok2 = (c.args and unparse(c.args[0]) == f'{p}.input_states'
+    kw = {k.arg: unparse(_uncopied(k.value)) for k in c.keywords}
+    ok2 = (c.args and unparse(_uncopied(c.args[0])) == f'{p}.input_states'
            and kw.get('state') == f'{p}.agg_state' and kw.get('runner') == 'self._runner')
   if ok2:
     ctx.ok(rule, fs, 'from_state(input_states, state=agg_state, runner=...)', fs.node)
@@ -228,6 +228,92 @@ def r2(ctx: Ctx):
              'restore does not resume from the checkpointed aggregation state'
              ' and input positions', node=fs.node)
   ctx.floor(rule, 2)
+
+
+def _uncopied(e: ast.AST) -> ast.AST:
+  while isinstance(e, ast.Call) and unparse(e.func) in ('copy.deepcopy', 'deepcopy') and e.args:
+    e = e.args[0]
+  return e
+
+
+def _is_deepcopy(e: ast.AST) -> bool:
+  return isinstance(e, ast.Call) and unparse(e.func) in ('copy.deepcopy', 'deepcopy') and bool(e.args)
+
+
+def r9(ctx: Ctx):
+  rule = 'R-C10-9'
+  ctx.rule(rule, 'snapshot isolation on the RESTORE side: a component X that the'
+           ' `state` property deep-copies on capture because the running iterator'
+           ' updates self.X in place (self.X is passed to an update call whose'
+           ' result is stored back, or stored through) must not be handed by'
+           ' reference from the captured state to the restored iterator either:'
+           ' on the path from_state(param) -> constructor keyword -> self.X the'
+           ' value is deep-copied (in from_state or in the constructor);'
+           ' otherwise running the restored iterator mutates the checkpoint and'
+           ' a second restore from the same state resumes from accumulators that'
+           ' already contain the first resumed run')
+  repo = ctx.repo
+  n = 0
+  for ci in repo.module(TR).classes.values():
+    st = ci.methods.get('state')
+    fs = ci.methods.get('from_state')
+    init = ci.methods.get('__init__')
+    if st is None or fs is None or init is None:
+      continue
+    # capture side: which self.X are deep-copied?
+    captured = set()
+    for x in ast.walk(st.node):
+      if _is_deepcopy(x) and is_self_attr(x.args[0]):
+        captured.add(x.args[0].attr)
+    # in-place update evidence for self.X in the class
+    inplace = set()
+    for m in ci.methods.values():
+      for x in walk_no_nested(m.node):
+        if isinstance(x, ast.Assign) and len(x.targets) == 1 and is_self_attr(x.targets[0]) and isinstance(
+            x.value, ast.Call) and any(is_self_attr(a, x.targets[0].attr) for a in x.value.args):
+          inplace.add(x.targets[0].attr)
+        if isinstance(x, (ast.Assign, ast.AugAssign)):
+          for t in (x.targets if isinstance(x, ast.Assign) else [x.target]):
+            if isinstance(t, ast.Subscript) and is_self_attr(t.value):
+              inplace.add(t.value.attr)
+    for fld in sorted(captured & inplace):
+      # constructor: self.fld = <expr over param P> (not deep-copied)
+      params = set(FuncInfo(init.module, init.qualname, init.node, ci).params())
+      via = {}
+      for x in walk_no_nested(init.node):
+        if isinstance(x, ast.Assign) and any(is_self_attr(t, fld) for t in x.targets):
+          if _is_deepcopy(x.value):
+            continue
+          for y in ast.walk(x.value):
+            if isinstance(y, ast.Name) and y.id in params and y.id != 'self':
+              via[y.id] = x
+      if not via:
+        # the constructor stores only deep copies (or nothing caller-supplied)
+        n += 1
+        ctx.ok(rule, init, f'{ci.name}.__init__ stores self.{fld} detached from its arguments', init.node)
+        continue
+      sp = fs.params()[1]
+      calls = [c for c in walk_no_nested(fs.node) if isinstance(c, ast.Call)]
+      fed = []
+      for c in calls:
+        for k in c.keywords:
+          if k.arg in via and any(isinstance(y, ast.Name) and y.id == sp for y in ast.walk(k.value)):
+            fed.append((c, k))
+      if not fed:
+        raise AnalysisError(f'{rule}: {ci.name}.from_state no longer feeds `{sorted(via)}` from its state parameter')
+      for c, k in fed:
+        n += 1
+        if _is_deepcopy(k.value):
+          ctx.ok(rule, fs, f'{ci.name}.from_state: {k.arg}=deepcopy({unparse(k.value.args[0])})', k.value)
+        else:
+          ctx.fail(rule, fs, f'{ci.name}.from_state: the captured `{fld}` is copied before the restored iterator updates it',
+                   f'`{k.arg}={unparse(k.value)[:40]}` hands the accumulators of the captured state to'
+                   f' the restored iterator by reference ({ci.name}.__init__ keeps the same objects in'
+                   f' self.{fld}, and iteration updates self.{fld} in place although `state` deep-copies it'
+                   ' on capture): running the restored iterator changes the checkpoint — a second'
+                   ' restore from the same state double-counts every batch of the first resumed run',
+                   node=k.value)
+  ctx.floor(rule, 1)
 
 
 def r3(ctx: Ctx):
@@ -519,8 +605,17 @@ VARIANTS = [
       '', 'R-C10-1'),
     B('agg-state-shallow', _T, '        agg_state=copy.deepcopy(self.agg_state),',
       '        agg_state=copy.copy(self.agg_state),', 'R-C10-2'),
-    B('restore-forgets-agg-state', _T, '        state=state.agg_state,\n    )',
+    B('restore-forgets-agg-state', _T, '        state=copy.deepcopy(state.agg_state),\n    )',
       '        state=None,\n    )', 'R-C10-2'),
+    B('revert-restore-copies-state', _T, '        state=copy.deepcopy(state.agg_state),\n    )',
+      '        state=state.agg_state,\n    )', 'R-C10-9'),
+    B('restore-copies-shallow', _T, '        state=copy.deepcopy(state.agg_state),\n    )',
+      '        state=dict(state.agg_state),\n    )', 'R-C10-9'),
+    OK('restore-copy-in-constructor', _T,
+       '        state=copy.deepcopy(state.agg_state),\n    )',
+       '        state=state.agg_state,\n    )',
+       extra=[(_T, '    self.agg_state = {\n        k: v for k, v in state.items() if k.metrics in self._runner.agg_fns\n    }',
+               '    self.agg_state = copy.deepcopy({\n        k: v for k, v in state.items() if k.metrics in self._runner.agg_fns\n    })')]),
     B('zip-not-strict', _U,
       'zip(self._data_sources, states, strict=True)', 'zip(self._data_sources, states)',
       'R-C10-3'),
